@@ -412,6 +412,13 @@ class Struct(metaclass=MetaStruct):
 
     def __setstate__(self, state):
         self._buffer, self._offset = state
+        # restore the caches that _from_buffer establishes
+        _offsets = {}
+        for field in self._d_fields:
+            offset = self._offset + field.offset
+            _offsets[field.index] = Int64._from_buffer(self._buffer, offset)
+        self._offsets = _offsets
+        self._size = self._get_size()
 
     @classmethod
     def _gen_data_paths(cls, base=None):
